@@ -4,6 +4,8 @@ package main
 import (
 	_ "verif/c03"
 	_ "verif/c04"
+	_ "verif/c05"
+	_ "verif/c06"
 	_ "verif/c08"
 	_ "verif/c09"
 	_ "verif/c10"
